@@ -90,7 +90,11 @@ CellOut(c, fmt) == IF c.c = "null" THEN [null |-> TRUE]
 MsgDataRow(cells, codes) == [t |-> "D", wf |-> TRUE, n |-> Len(cells),
                              cells |-> [i \in DOMAIN cells |-> CellOut(cells[i], FormatOf(codes, i))]]
 
-RowEncodable(cells) == \A i \in DOMAIN cells : cells[i].c # "bad"
+\* "bad": no encoding at all; "tonly": a value that has a text rendering only (a
+\* string handed over for an integer column): the row is refused when that
+\* column is to be sent in binary - never sent in a format other than announced
+RowEncodable(cells, codes) ==
+    \A i \in DOMAIN cells : cells[i].c # "bad" /\ (cells[i].c = "tonly" => FormatOf(codes, i) = 0)
 
 (***************************************************************************)
 (* Errors.  An error value is [base |-> text, layers |-> <<l1, ...>>],    *)
